@@ -2,7 +2,7 @@
 representation options."""
 from ..engine import Rule, load_tables
 from ..extract import AnalysisBroken
-from ..model import walk
+from ..model import walk, strip_casts
 
 EXPLANATION = (
     "Effect rule over libasn1compiler: the functions that emit wire-relevant tables (PER/OER constraint tables, tag "
@@ -73,7 +73,7 @@ def run(ctx):
     # constants; the literal must denote the same number (rule R18.2 evaluated for this property)
     from . import c18
     return [r, r2, r13_3(ctx.prog("S"), tab), c18.r18_2(prog, rid="R13.4"), r13_5(prog, tab, scope), _r13_6(ctx), r13_7(ctx.prog("S")),
-            c06.r06_7(ctx.prog("S"), load_tables("c06"), rid="R13.8")]
+            c06.r06_7(ctx.prog("S"), load_tables("c06"), rid="R13.8"), r13_9(prog, tab)]
 
 
 def _r13_6(ctx):
@@ -188,6 +188,69 @@ def r13_5(prog, tab, scope=None):
                 key = "if(%s) decides %s" % ("|".join(rd), ",".join(sorted(reach[0] ^ reach[1])))
                 r.bad(f, key, "the option decides whether %s run: the wire tables (or their existence) depend on a representation "
                               "option" % ", ".join(sorted(reach[0] ^ reach[1])), t.get("line"))
+    return r
+
+
+def r13_9(prog, tab):
+    """The wire slots of an emitted descriptor (the references `&asn_PER_..._constr_N`, `&asn_OER_..._constr_N` that
+    tell the PER and OER codecs a member's or type's constraints) do not depend on a representation option, directly or
+    through a local computed from one.  For every branch in libasn1compiler whose condition reads an option enumerator
+    or such a local: the same wire references are written on some path from either edge.  (-fno-constraints is defined
+    to drop the *checking* code only; a NULL in a wire slot makes the codec use the unconstrained layout.)"""
+    import re
+    r = Rule("R13.9", "no reference to a PER/OER constraint table is written into a descriptor under a test of a representation option (or of a local derived from one)", floor=3)
+    flags = set(tab["representation_flags"])
+    pat = re.compile(r"asn_(PER|OER)_")
+    for f in sorted(prog.funcs.values(), key=lambda f: f.key):
+        if "libasn1compiler/" not in f.relfile:
+            continue
+        sites = {}
+        for b, i, e in f.calls():
+            if e.get("callee") != "asn1c_compiled_output":
+                continue
+            for a in e.get("args", []):
+                t = strip_casts(a.get("tree"))
+                if isinstance(t, list) and t and t[0] == "str" and pat.search(t[1]) and "&" in t[1]:
+                    sites.setdefault(b.id, set()).add(t[1].strip())
+        if not sites:
+            continue
+        # locals derived from an option
+        derived = set()
+        changed = True
+        while changed:
+            changed = False
+            for b, i, e in f.events():
+                tr = None
+                if e["k"] == "decl" and "init" in e:
+                    vid, tr = e.get("id"), e["init"]["tree"]
+                elif e["k"] == "assign" and "rhs" in e and e.get("lhs") == e.get("base") and not e.get("deref"):
+                    vid, tr = e.get("base_id"), e["rhs"]["tree"]
+                if tr is None or vid is None or vid in derived:
+                    continue
+                if any((n[0] == "enum" and n[1] in flags) or (n[0] == "var" and n[1] in derived) for n in walk(tr)):
+                    derived.add(vid)
+                    changed = True
+        n = 0
+        for b in sorted(f.blocks.values(), key=lambda b: ((b.term or {}).get("line") or 0, b.id)):
+            t = b.term
+            if not t or "cond" not in t or len(b.succ) < 2 or t["kind"] == "SwitchStmt":
+                continue
+            rd = sorted({x[1] for x in walk(t["cond"]["tree"]) if x[0] == "enum" and x[1] in flags}
+                        | {x[1].split("@")[0] for x in walk(t["cond"]["tree"]) if x[0] == "var" and x[1] in derived})
+            if not rd:
+                continue
+            n += 1
+            key = "if(%s)@%d" % ("|".join(rd), n)
+            reach = []
+            for s_ in b.succ[:2]:
+                blocks = f.reachable_from([s_]) if s_ is not None else set()
+                reach.append(set().union(*[sites.get(bid, set()) for bid in blocks]) if blocks else set())
+            if reach[0] == reach[1]:
+                r.ok(f, key, "the same constraint-table references (%d) are written on both edges" % len(reach[0]), t.get("line"), nontrivial=bool(reach[0]))
+            else:
+                r.bad(f, "if(%s) decides %s" % ("|".join(rd), ",".join(sorted(reach[0] ^ reach[1]))),
+                      "the option decides whether the descriptor refers to %s: the PER/OER layout of the member depends on a representation "
+                      "option" % ", ".join(sorted(reach[0] ^ reach[1])), t.get("line"))
     return r
 
 
